@@ -74,6 +74,17 @@ pub fn handle(op: &str, req: &Value) -> Option<Value> {
             }
             let (w, h) = (req["w"].as_u64().unwrap_or(0), req["h"].as_u64().unwrap_or(0));
             let gop = req["graph_op"].as_str().unwrap_or("");
+            if gop == "detect_cycles" {
+                let cycles = g.detect_cycles();
+                let valid = cycles.iter().all(|c| !c.is_empty() && (0..c.len()).all(|i| pre.contains(&(c[i], c[(i + 1) % c.len()]))));
+                let expect = req["expect"].as_bool().unwrap_or(false);
+                return Some(json!({"cycles": cycles, "expected_cycle": expect, "violates": cycles.is_empty() == expect || !valid}));
+            }
+            if gop == "would_create_cycle" {
+                let got = g.would_create_cycle(w, h);
+                let expect = req["expect"].as_bool().unwrap_or(false);
+                return Some(json!({"would_create_cycle": got, "expected": expect, "violates": got != expect}));
+            }
             match gop {
                 "add_wait" => g.add_wait(w, h, None),
                 "remove_wait" => g.remove_wait(w, h),
